@@ -459,3 +459,62 @@ where
         Ok(())
     }
 }
+
+/// Verification hooks: read-only projections of internal state
+#[cfg(feature = "verif-hooks")]
+impl<W, E, CommandBuffer, HistoryBuffer> Cli<W, E, CommandBuffer, HistoryBuffer>
+where
+    W: Write<Error = E>,
+    E: embedded_io::Error,
+    CommandBuffer: Buffer,
+    HistoryBuffer: Buffer,
+{
+    /// Edited text and cursor position (in chars)
+    #[doc(hidden)]
+    pub fn __verif_line(&self) -> (&[u8], usize) {
+        match self.editor.as_ref() {
+            Some(editor) => (editor.text().as_bytes(), editor.cursor()),
+            None => (&[], usize::MAX),
+        }
+    }
+
+    /// Raw editor state: buffer, valid bytes, cursor (in chars)
+    #[doc(hidden)]
+    pub fn __verif_editor_raw(&self) -> Option<(&[u8], usize, usize)> {
+        self.editor.as_ref().map(|editor| editor.__verif_raw())
+    }
+
+    #[doc(hidden)]
+    pub fn __verif_prompt(&self) -> &'static str {
+        self.prompt
+    }
+
+    /// History elements (oldest first) and selected position (see History::__verif_entries)
+    #[cfg(feature = "history")]
+    #[doc(hidden)]
+    pub fn __verif_history(&self, f: impl FnMut(&[u8])) -> usize {
+        self.history.__verif_entries(f)
+    }
+
+    #[cfg(feature = "history")]
+    #[doc(hidden)]
+    pub fn __verif_history_raw(&self) -> (&[u8], usize, Option<usize>) {
+        self.history.__verif_raw()
+    }
+
+    /// Decoder state: (csi started, last byte, utf8 buffer, utf8 partial, utf8 expected)
+    #[doc(hidden)]
+    pub fn __verif_decoder(&self) -> Option<(bool, u8, [u8; 4], u8, u8)> {
+        self.input_generator.as_ref().map(|g| g.__verif_state())
+    }
+
+    /// Overwrite all buffer bytes that do not hold live data
+    #[doc(hidden)]
+    pub fn __verif_poison_dead(&mut self, fill: u8) {
+        if let Some(editor) = self.editor.as_mut() {
+            editor.__verif_poison_dead(fill);
+        }
+        #[cfg(feature = "history")]
+        self.history.__verif_poison_dead(fill);
+    }
+}
